@@ -150,6 +150,8 @@ class Summary:
 
 
 class Interp:
+    trace_reads = frozenset()      # attribute names whose item reads are recorded as events
+
     def __init__(self, repo, types, param_types=None, max_depth=10, no_inline=()):
         self.repo = repo
         self.types = types
@@ -338,7 +340,7 @@ class Interp:
                 hs = pre.fork(("exc", ast.unparse(h.type) if h.type else "BaseException",
                                getattr(h, "lineno", 0)))
                 self._emit("except", hs, h, act, etype=ast.unparse(h.type) if h.type else None,
-                           body=h.body)
+                           body=h.body, try_body=s.body)
                 r = self._block(h.body, hs, act)
                 if r is not None:
                     r.pc = pre.pc
@@ -503,6 +505,17 @@ class Interp:
         """`for k, v in D.items()`, `for k in D.keys()`, `for v in D.values()` and `for k in D`
         (with D[k]) are one iteration over the mapping D: (D, element builder) - the loop is
         recorded over D itself and the view only decides what the target is bound to"""
+        # list(X) / tuple(X) visit X's elements in X's order
+        def unwrap(x):
+            while x[0] == "call" and x[1] in ("builtins.list", "builtins.tuple") \
+                    and len(x[2]) == 1 and not x[3] and x[2][0][0] in ("mcall", "attr", "sub",
+                                                                        "param", "call"):
+                x = x[2][0]
+            return x
+        it = unwrap(it)
+        if it[0] == "call" and it[1] == "builtins.enumerate" and it[2] \
+                and unwrap(it[2][0]) is not it[2][0]:
+            it = ("call", it[1], (unwrap(it[2][0]),) + tuple(it[2][1:])) + tuple(it[3:])
         if it[0] == "mcall" and it[2] in ("items", "keys", "values") and not it[3] and not it[4]:
             base, view = it[1], it[2]
             if view == "items":
@@ -1191,6 +1204,10 @@ class Interp:
     def _e_Subscript(self, e, st, act):
         base = self._eval(e.value, st, act)
         idx = self._eval_index(e.slice, st, act)
+        if self.trace_reads and base[0] == "attr" and base[2] in self.trace_reads:
+            # opt-in: *when* an item of this attribute is read (rules about reads that must
+            # follow an update)
+            self._emit("read", st, e, act, base=base, idx=idx)
         if base[0] == "dictobj" and self.heap[base[1]].get("memo"):
             # a look-up table filled on demand (`if k not in D: D[k] = f(k)` and nothing else):
             # D[k] for the key it was just filled for is f(k)
@@ -1363,7 +1380,14 @@ class Interp:
                     and not (is_const(src[0]) and src[0][1] is None):
                 extra = tuple(src[1])
                 i0 = next(i for i, c in enumerate(extra) if c[0] == "inloop")
-                ex = ("exists", extra[i0][1], extra[i0 + 1:])
+
+                def nest(cs):
+                    # nested producer loops are nested quantifiers
+                    for j, c in enumerate(cs):
+                        if c[0] == "inloop":
+                            return tuple(cs[:j]) + (("exists", c[1], nest(cs[j + 1:])),)
+                    return tuple(cs)
+                ex = ("exists", extra[i0][1], nest(extra[i0 + 1:]))
                 if extra[:i0]:
                     ex = _boolop("and", list(extra[:i0]) + [ex])
                 return ex if isinstance(e.ops[0], ast.IsNot) else ("not", ex)
@@ -1455,11 +1479,20 @@ class Interp:
             if src is not None and any(c[0] == "inloop" for c in src[1]):
                 # comprehension over an identity comprehension / appended list: same producer
                 elem, extra = src
-                lid = [c[1] for c in extra if c[0] == "inloop"][0]
                 self._assign(g.target, elem, inner, act, e)
-                pre = tuple(c for c in extra if c[0] != "inloop")
-                conds = pre + tuple(self._eval(c, inner, act) for c in g.ifs)
-                gens.append((lid, self.loops[lid]["iter"], conds))
+                # one generator per producer loop, each with the conditions met inside it
+                segs, pre0 = [], []
+                for c in extra:
+                    if c[0] == "inloop":
+                        segs.append([c[1], []])
+                    elif segs:
+                        segs[-1][1].append(c)
+                    else:
+                        pre0.append(c)
+                segs[0][1][:0] = pre0
+                segs[-1][1].extend(self._eval(c, inner, act) for c in g.ifs)
+                for lid, cs in segs:
+                    gens.append((lid, self.loops[lid]["iter"], tuple(cs)))
                 continue
             lid = self.new_id()
             it, view = self._mapping_view(it)
@@ -1746,7 +1779,14 @@ class Interp:
         for kw in e.keywords:
             v = self._eval(kw.value, st, act)
             if kw.arg is None:
-                dstar.append(v)
+                h = self.heap.get(v[1]) if v[0] == "dictobj" else None
+                if h is not None and not h["dyn"] and h["items"] \
+                        and all(isinstance(k_, str) for k_ in h["items"]):
+                    # f(**{"a": x, "b": y}) is f(a=x, b=y)
+                    for k_, v_ in h["items"].items():
+                        kwargs[k_] = self._under(v_, st.pc)
+                else:
+                    dstar.append(v)
             else:
                 kwargs[kw.arg] = v
         return args, kwargs, star, dstar
